@@ -1,7 +1,447 @@
-//! C40 — not implemented yet (see DESIGN.md section 4).
-use kit::Run;
-use serde_json::Value;
+//! C40 — synchronous and asynchronous APIs behave identically.
+//! S-env, deviation bound 1: the quick sub-products of the C03 / C15 / C39 enumerations are executed through the
+//! sync entry points (Builder::sign, add_ingredient_from_stream, sign_data_hashed_embeddable, Reader::with_stream,
+//! with_manifest_data_and_stream) and through their async_generic twins with an equivalent AsyncSigner
+//! (kit::defs::AsyncWrap over the same fixture signer) on the kit executor. The async side is run undisturbed and then
+//! once for EVERY await point k of the signer (sign / ocsp_val / send_timestamp_request futures) with that future
+//! returning Pending once.
+//! Oracle: same error kind, or outputs whose canonical report (kit::canon, hashes of hashed URIs dropped) and
+//! validation codes are equal.
+//!
+//! Mutants caught (tools/mutant_run.sh H <diff> C40 quick):
+//!   /verif/mutants/C40-async-skips-verify-after-sign.diff
 
-pub fn run(_run: &Run, _replay: Option<&Value>) {
-    kit::ev::machinery("C40: check not implemented");
+use crate::{c03, c15, c22::first_diff, c39};
+use c2pa::{assertions::DataHash, Builder, BuilderIntent, DigitalSourceType, HashRange, Reader};
+use kit::{
+    assets,
+    defs::{self, block_on, AsyncWrap, Def, Kind},
+    par, sdk, Run,
+};
+use serde_json::{json, Value};
+use std::io::Cursor;
+
+#[derive(Clone, Copy, Debug, PartialEq)]
+pub enum Flavor {
+    Sync,
+    Async(Option<usize>),
+}
+
+#[derive(Clone, Debug)]
+pub struct Obs {
+    /// Ok((canonical view, codes)) or Err(error kind)
+    pub out: Result<(Value, Vec<String>), String>,
+    pub points: usize,
+    pub pended: usize,
+}
+
+pub fn view(rd: &Reader) -> (Value, Vec<String>) {
+    (defs::view(rd), kit::canon::codes(rd))
+}
+
+fn kind(e: &c2pa::Error) -> String {
+    sdk::err_kind(e)
+}
+
+// ------------------------------------------------------------------------------------------------------------
+// C03 enumeration
+// ------------------------------------------------------------------------------------------------------------
+
+fn c03_sync(c: &c03::Case) -> Obs {
+    let a = assets::by_name(&c.asset);
+    let out = match c03::build_and_sign(c, &a.data, a.mime) {
+        Err(p) => Err(format!("PANIC {p}")),
+        Ok(Err(e)) => Err(format!("sign:{}", kind(&e))),
+        Ok(Ok((out, man))) => match c03::read_back(c, a.mime, &out, &man) {
+            Err(p) => Err(format!("PANIC {p}")),
+            Ok(Err(e)) => Err(format!("read:{}", kind(&e))),
+            Ok(Ok(rd)) => Ok(view(&rd)),
+        },
+    };
+    Obs { out, points: 0, pended: 0 }
+}
+
+fn c03_async(c: &c03::Case, pend: Option<usize>) -> Obs {
+    let a = assets::by_name(&c.asset);
+    let mut wrap = AsyncWrap::new(sdk::fixture_signer(&c.alg), pend);
+    wrap.fault = c.fault;
+    let wrap = wrap;
+    let r = par::guard(|| {
+        block_on(async {
+            let signed: c2pa::Result<(Vec<u8>, Vec<u8>)> = async {
+                let mut b = Builder::from_context(c.ctx()).with_definition(c.def.definition(c.ver, Some(&c.hash)))?;
+                b.set_intent(BuilderIntent::Create(DigitalSourceType::DigitalCapture));
+                c.def.apply_async(&mut b, c.ver).await?;
+                match c.mode.as_str() {
+                    "sidecar" => { b.set_no_embed(true); }
+                    "remote" => { b.set_remote_url(c03::REMOTE_URL); }
+                    _ => {}
+                }
+                let mut dst = Cursor::new(Vec::new());
+                let man = b.sign_async(&wrap, a.mime, &mut Cursor::new(&a.data), &mut dst).await?;
+                Ok((dst.into_inner(), man))
+            }
+            .await;
+            match signed {
+                Err(e) => Err(format!("sign:{}", kind(&e))),
+                Ok((out, man)) => {
+                    let rd = Reader::from_context(c.ctx());
+                    let r = if c.mode == "sidecar" {
+                        rd.with_manifest_data_and_stream_async(&man, a.mime, Cursor::new(&out)).await
+                    } else {
+                        rd.with_stream_async(a.mime, Cursor::new(&out)).await
+                    };
+                    match r {
+                        Err(e) => Err(format!("read:{}", kind(&e))),
+                        Ok(rd) => Ok(view(&rd)),
+                    }
+                }
+            }
+        })
+    });
+    Obs { out: r.unwrap_or_else(|p| Err(format!("PANIC {p}"))), points: wrap.points_seen(), pended: wrap.pended() }
+}
+
+// ------------------------------------------------------------------------------------------------------------
+// C15 enumeration through the flavoured API: data_hashed_placeholder + sign_data_hashed_embeddable(_async)
+// ------------------------------------------------------------------------------------------------------------
+
+fn c15_flow(c: &c15::Case, fl: Flavor) -> Obs {
+    let mime = c.mime();
+    let pend = match fl { Flavor::Async(p) => p, Flavor::Sync => None };
+    let mut wrap = AsyncWrap::new(sdk::fixture_signer(&c.alg), pend);
+    wrap.reserve_extra = c.reserve_extra;
+    let sync_signer = c15::OwnedReserve { inner: sdk::fixture_signer(&c.alg), extra: c.reserve_extra };
+    let r = par::guard(|| {
+        block_on(async {
+            let def = if c.rich { Def::rich() } else { Def::empty() };
+            let step: c2pa::Result<(Vec<u8>, Option<(Vec<u8>, usize)>, usize)> = async {
+                let mut b = Builder::from_context(sdk::ctx()).with_definition(def.definition(2, None))?;
+                b.set_intent(BuilderIntent::Create(DigitalSourceType::DigitalCapture));
+                if fl == Flavor::Sync { def.apply(&mut b, 2)?; } else { def.apply_async(&mut b, 2).await?; }
+                let reserve = { use c2pa::Signer; sync_signer.reserve_size() };
+                let ph = b.data_hashed_placeholder(reserve, mime)?;
+                let mut dh = DataHash::new("jumbf manifest", "sha256");
+                let mut real_asset = None;
+                if c.real {
+                    let filler = c15::filler_for(&c.fmt, c.co).unwrap_or(0);
+                    let (asset, off) = c15::embed(&c.fmt, filler, &ph).unwrap_or_else(|| kit::ev::machinery("C40/C15: real case without embedding"));
+                    dh.add_exclusion(HashRange::new(off as u64, ph.len() as u64));
+                    dh.gen_hash_from_stream(&mut Cursor::new(&asset))?;
+                    real_asset = Some((asset, off));
+                } else {
+                    let head = c15::embed(&c.fmt, 0, &ph).map(|x| x.0).unwrap_or_else(|| vec![0x5Au8; 64]);
+                    let (ranges, _) = c15::exclusion_list(c.n, c.co, c.cl, head.len() as u64 + 8, false).unwrap_or_else(|| kit::ev::machinery("C40/C15: infeasible list"));
+                    let end = ranges.iter().map(|r| r.0 + r.1).max().unwrap_or(0).max(head.len() as u64) + 64;
+                    for r in &ranges { dh.add_exclusion(HashRange::new(r.0, r.1)); }
+                    let mut s = c15::Sparse { head, len: end, pos: 0, served: 0 };
+                    dh.gen_hash_from_stream(&mut s)?;
+                }
+                let signed = if fl == Flavor::Sync {
+                    b.sign_data_hashed_embeddable(&sync_signer, &dh, mime)?
+                } else {
+                    b.sign_data_hashed_embeddable_async(&wrap, &dh, mime).await?
+                };
+                Ok((signed, real_asset, ph.len()))
+            }
+            .await;
+            match step {
+                Err(e) => Err(format!("flow:{}", kind(&e))),
+                Ok((signed, real_asset, ph_len)) => {
+                    let mut v = json!({"signed_minus_placeholder": signed.len() as i64 - ph_len as i64});
+                    let mut codes = vec![];
+                    if let Some((asset, off)) = real_asset {
+                        if signed.len() == ph_len {
+                            let mut patched = asset.clone();
+                            patched[off..off + signed.len()].copy_from_slice(&signed);
+                            let rd = if fl == Flavor::Sync {
+                                Reader::from_context(sdk::ctx()).with_stream(mime, Cursor::new(&patched))
+                            } else {
+                                Reader::from_context(sdk::ctx()).with_stream_async(mime, Cursor::new(&patched)).await
+                            };
+                            match rd {
+                                Ok(rd) => { let (x, c) = view(&rd); v["report"] = x; codes = c; }
+                                Err(e) => { v["report"] = json!(format!("read:{}", kind(&e))); }
+                            }
+                        }
+                    }
+                    Ok((v, codes))
+                }
+            }
+        })
+    });
+    Obs { out: r.unwrap_or_else(|p| Err(format!("PANIC {p}"))), points: wrap.points_seen(), pended: wrap.pended() }
+}
+
+// ------------------------------------------------------------------------------------------------------------
+// C39 enumeration
+// ------------------------------------------------------------------------------------------------------------
+
+async fn make_parent_flavoured(c: &c39::Case, title: &str, ing_mime: &str, ing: &[u8], via_archive: bool, fl: Flavor, wrap: &AsyncWrap) -> Result<Vec<u8>, String> {
+    let p = assets::by_name(&c.parent);
+    let ing_json = json!({"title": "the-ingredient", "relationship": c.rel}).to_string();
+    let mut b = c39::new_builder(&c.rel, title);
+    let sync = fl == Flavor::Sync;
+    if via_archive {
+        let mut b1 = c39::new_builder(&c.rel, "archiver");
+        let id = {
+            let i = if sync {
+                b1.add_ingredient_from_stream(ing_json.clone(), ing_mime, &mut Cursor::new(ing))
+            } else {
+                b1.add_ingredient_from_stream_async(ing_json.clone(), ing_mime, &mut Cursor::new(ing)).await
+            }
+            .map_err(|e| format!("add-archiver:{}", kind(&e)))?;
+            match i.label() { Some(l) if !l.is_empty() => l.to_string(), _ => i.instance_id().to_string() }
+        };
+        let mut buf = Cursor::new(Vec::new());
+        b1.write_ingredient_archive(&id, &mut buf).map_err(|e| format!("write-archive:{}", kind(&e)))?;
+        buf.set_position(0);
+        if sync {
+            b.add_ingredient_from_stream(ing_json, "application/c2pa", &mut buf).map(|_| ())
+        } else {
+            b.add_ingredient_from_stream_async(ing_json, "application/c2pa", &mut buf).await.map(|_| ())
+        }
+        .map_err(|e| format!("add-archive:{}", kind(&e)))?;
+    } else {
+        if sync {
+            b.add_ingredient_from_stream(ing_json, ing_mime, &mut Cursor::new(ing)).map(|_| ())
+        } else {
+            b.add_ingredient_from_stream_async(ing_json, ing_mime, &mut Cursor::new(ing)).await.map(|_| ())
+        }
+        .map_err(|e| format!("add:{}", kind(&e)))?;
+    }
+    let mut dst = Cursor::new(Vec::new());
+    if sync {
+        let signer = sdk::fixture_signer("ed25519");
+        b.sign(signer.as_ref(), p.mime, &mut Cursor::new(&p.data), &mut dst).map_err(|e| format!("sign:{}", kind(&e)))?;
+    } else {
+        b.sign_async(wrap, p.mime, &mut Cursor::new(&p.data), &mut dst).await.map_err(|e| format!("sign:{}", kind(&e)))?;
+    }
+    Ok(dst.into_inner())
+}
+
+fn c39_flow(c: &c39::Case, seeds: &[c39::Seed], fl: Flavor) -> Obs {
+    let pend = match fl { Flavor::Async(p) => p, Flavor::Sync => None };
+    let wrap = AsyncWrap::new(sdk::fixture_signer("ed25519"), pend);
+    let s = seeds.iter().find(|s| s.name == c.seed).unwrap_or_else(|| kit::ev::machinery("C40/C39: unknown seed"));
+    let ing: &Vec<u8> = match c.state.as_str() { "signed" => &s.signed, "tampered" => &s.tampered, _ => &s.unsigned };
+    let pm = assets::by_name(&c.parent).mime;
+    let r = par::guard(|| {
+        block_on(async {
+            let out = match c.mode.as_str() {
+                "direct" | "archive" => make_parent_flavoured(c, "outer", s.mime, ing, c.mode == "archive", fl, &wrap).await?,
+                _ => {
+                    let mid = make_parent_flavoured(c, "middle", s.mime, ing, false, fl, &wrap).await?;
+                    make_parent_flavoured(c, "outer", pm, &mid, false, fl, &wrap).await?
+                }
+            };
+            let rd = if fl == Flavor::Sync {
+                Reader::from_context(sdk::ctx()).with_stream(pm, Cursor::new(&out))
+            } else {
+                Reader::from_context(sdk::ctx()).with_stream_async(pm, Cursor::new(&out)).await
+            };
+            match rd {
+                Ok(rd) => Ok(view(&rd)),
+                Err(e) => Err(format!("read:{}", kind(&e))),
+            }
+        })
+    });
+    Obs { out: r.unwrap_or_else(|p| Err(format!("PANIC {p}"))), points: wrap.points_seen(), pended: wrap.pended() }
+}
+
+// ------------------------------------------------------------------------------------------------------------
+// driver
+// ------------------------------------------------------------------------------------------------------------
+
+#[derive(Clone, Debug)]
+pub enum AnyCase {
+    C03(c03::Case),
+    C15(c15::Case),
+    C39(c39::Case),
+}
+impl AnyCase {
+    fn to_json(&self, fl: Flavor) -> Value {
+        let (e, c) = match self { AnyCase::C03(c) => ("C03", c.to_json()), AnyCase::C15(c) => ("C15", c.to_json()), AnyCase::C39(c) => ("C39", c.to_json()) };
+        let pend = match fl { Flavor::Async(Some(k)) => json!(k), _ => Value::Null };
+        json!({"enumeration": e, "case": c, "pending_at": pend})
+    }
+    fn id(&self) -> String {
+        match self { AnyCase::C03(c) => format!("C03 {}", c.id()), AnyCase::C15(c) => format!("C15 {}", c.id()), AnyCase::C39(c) => format!("C39 {}", c.id()) }
+    }
+    fn group(&self) -> String {
+        match self {
+            AnyCase::C03(c) => format!("enum=C03 mode={} v={} c={} trust={} fault={}", c.mode, c.ver, c.compress as u8, c.trust as u8, c.fault),
+            AnyCase::C15(c) => format!("enum=C15 kind={} fmt={}", if c.real { "real" } else { "sized" }, c.fmt),
+            AnyCase::C39(c) => format!("enum=C39 state={} rel={} mode={}", c.state, c.rel, c.mode),
+        }
+    }
+    fn flow(&self, seeds: &[c39::Seed], fl: Flavor) -> Obs {
+        match (self, fl) {
+            (AnyCase::C03(c), Flavor::Sync) => c03_sync(c),
+            (AnyCase::C03(c), Flavor::Async(p)) => c03_async(c, p),
+            (AnyCase::C15(c), f) => c15_flow(c, f),
+            (AnyCase::C39(c), f) => c39_flow(c, seeds, f),
+        }
+    }
+}
+
+/// None when the two observations agree, else (key part, description).
+fn compare(s: &Obs, a: &Obs) -> Option<(String, String)> {
+    match (&s.out, &a.out) {
+        (Err(x), Err(y)) => if x == y { None } else { Some((format!("error-kind-differs sync={x} async={y}"), format!("sync {x}, async {y}"))) },
+        (Ok(_), Err(y)) => Some((format!("outcome-differs sync=ok async={y}"), format!("sync succeeded, async failed with {y}"))),
+        (Err(x), Ok(_)) => Some((format!("outcome-differs sync={x} async=ok"), format!("sync failed with {x}, async succeeded"))),
+        (Ok((v1, c1)), Ok((v2, c2))) => {
+            if c1 != c2 {
+                let only_s: Vec<&String> = c1.iter().filter(|x| !c2.contains(x)).collect();
+                let only_a: Vec<&String> = c2.iter().filter(|x| !c1.contains(x)).collect();
+                return Some(("codes-differ".into(), format!("only sync: {only_s:?}; only async: {only_a:?}")));
+            }
+            first_diff(v1, v2, "").map(|d| {
+                let loc: String = d.split(|ch| ch == ' ' || ch == ':').next().unwrap_or("").chars().filter(|ch| !ch.is_ascii_digit()).collect();
+                (format!("report-differs at={loc}"), d)
+            })
+        }
+    }
+}
+
+static STATS: std::sync::OnceLock<kit::defs::KeyStats> = std::sync::OnceLock::new();
+
+fn judge(run: &Run, case: &AnyCase, seeds: &[c39::Seed], only_pend: Option<Option<usize>>) {
+    let s = case.flow(seeds, Flavor::Sync);
+    run.eval();
+    let a0 = case.flow(seeds, Flavor::Async(None));
+    run.eval();
+    run.outcome(match &s.out { Ok(_) => "sync-ok".to_string(), Err(e) => format!("sync-err:{e}") });
+    let report = |fl: Flavor, a: &Obs| {
+        if let Some((k, w)) = compare(&s, a) {
+            let dev = match fl { Flavor::Async(Some(_)) => "pending-once", _ => "undisturbed" };
+            STATS.get_or_init(Default::default).add(&format!("{k} {} async={dev}", case.group()), &format!("{} [{fl:?}]: {w}", case.id()));
+            run.violation(format!("{k} {} async={dev}", case.group()), format!("{} [{fl:?}]: {w}", case.id()), case.to_json(fl));
+            run.outcome("disagree");
+        }
+    };
+    if only_pend.is_none() || only_pend == Some(None) {
+        report(Flavor::Async(None), &a0);
+    }
+    if a0.points > 0 || matches!(a0.out, Ok(_)) {
+        run.nontrivial(format!("{} undisturbed", case.id()));
+    }
+    for k in 0..a0.points {
+        if let Some(p) = only_pend {
+            if p != Some(k) { continue; }
+        }
+        let ak = case.flow(seeds, Flavor::Async(Some(k)));
+        run.eval();
+        if ak.pended != 1 {
+            // the undisturbed run reached await point k, so must this one (same inputs): otherwise the flow is not deterministic
+            kit::ev::machinery(format!("C40: {} reached {} await points undisturbed but point {k} was not reached when disturbed", case.id(), a0.points));
+        }
+        run.nontrivial(format!("{} pend@{k}", case.id()));
+        report(Flavor::Async(Some(k)), &ak);
+    }
+}
+
+pub fn run(run: &Run, replay: Option<&Value>) {
+    run.rule("cases = the quick sub-products of the C03 (configurations x definitions), C15 (exclusion lists, via data_hashed_placeholder + sign_data_hashed_embeddable) and C39 (ingredient state x relationship x mode) \
+              enumerations; each is executed with the sync API, with the async API undisturbed, and with the async API once per signer await point k with that future returning Pending once (deviation bound 1). \
+              non-trivial = distinct (case, k) async executions that reached the signer (k ranges over every await point observed in the undisturbed run) plus the undisturbed async executions.");
+    run.assume("equivalent signers: the async signer forwards to the same fixture signer object type; ECDSA/PSS signatures are randomised, reports are compared after kit::canon with the hashes of hashed URIs removed");
+    run.assume("sign_embeddable / with_archive have no async twin on this tree; the C15 enumeration goes through data_hashed_placeholder + sign_data_hashed_embeddable(_async), the pair named in the property");
+    run.assume("no resolver futures are exercised (network access is disabled in the kit context), so the only futures that can be Pending are the signer's");
+    let thorough = run.tier.is_thorough();
+    let seeds = c39::seeds(false);
+    if let Some(c) = replay {
+        let case = match c["enumeration"].as_str() {
+            Some("C03") => AnyCase::C03(c03::Case::from_json(&c["case"])),
+            Some("C15") => AnyCase::C15(c15::Case::from_json(&c["case"])),
+            _ => AnyCase::C39(c39::Case::from_json(&c["case"])),
+        };
+        let pend = c["pending_at"].as_u64().map(|k| k as usize);
+        let s = case.flow(&seeds, Flavor::Sync);
+        let a = case.flow(&seeds, Flavor::Async(pend));
+        println!("replay {} pending_at={pend:?}: sync {:?} / async {:?} (await points {})", case.id(), s.out.as_ref().map(|_| "ok"), a.out.as_ref().map(|_| "ok"), a.points);
+        println!("  comparison: {:?}", compare(&s, &a));
+        judge(run, &case, &seeds, Some(pend));
+        return;
+    }
+    // soundness of the comparator: the sync flavour twice must agree with itself on one case of each enumeration
+    let probes = vec![
+        AnyCase::C03(c03::Case { def: Def::full(), alg: "es256".into(), ..c03::Case::base("jpeg") }),
+        AnyCase::C03(c03::Case { alg: "ps256".into(), mode: "sidecar".into(), ver: 1, ..c03::Case::base("png") }),
+        AnyCase::C15(c15::Case { real: true, fmt: "jpeg".into(), n: 1, co: 0, cl: 9, reserve_extra: 0, rich: true, alg: "ed25519".into(), pure: false }),
+        AnyCase::C39(c39::Case { seed: "png".into(), state: "tampered".into(), rel: "componentOf".into(), mode: "chain2".into(), parent: "jpeg".into() }),
+    ];
+    for p in &probes {
+        let (x, y) = (p.flow(&seeds, Flavor::Sync), p.flow(&seeds, Flavor::Sync));
+        run.evals(2);
+        if let Some((k, w)) = compare(&x, &y) {
+            kit::ev::machinery(format!("C40: the sync flavour disagrees with itself on {}: {k}: {w}", p.id()));
+        }
+        let a = p.flow(&seeds, Flavor::Async(None));
+        run.eval();
+        run.sample(json!({"case": p.to_json(Flavor::Async(None)), "sync": x.out.as_ref().map(|_| "ok").map_err(|e| e.clone()), "async": a.out.as_ref().map(|_| "ok").map_err(|e| e.clone()), "signer_await_points": a.points}));
+    }
+
+    let names: Vec<&str> = assets::all().iter().map(|a| a.name).collect();
+    let algs: Vec<&str> = sdk::ALGS.iter().map(|x| x.0).collect();
+    let mut cases: Vec<AnyCase> = vec![];
+    // C03 sub-products A-D (and F; E in the thorough tier)
+    let mut n03 = 0usize;
+    // quick tier: the algorithm products run on one asset per handler family (the sync/async split is in store / claim /
+    // cose code, not in the format handlers); thorough: every asset
+    let fam = ["jpeg", "png", "mp4", "wav", "svg", "tiff"];
+    for n in &names { for a in &algs { for h in ["sha256", "sha384", "sha512"] {
+        if !thorough && !fam.contains(n) { continue; }
+        cases.push(AnyCase::C03(c03::Case { alg: a.to_string(), hash: h.to_string(), ..c03::Case::base(n) })); n03 += 1;
+    }}}
+    for n in &names { for comp in [false, true] { for ver in [1u8, 2] { for m in ["embedded", "sidecar", "remote"] {
+        // manifest compression costs ~1 s of CPU per signing inside the SDK: quick tier crosses it on three assets only
+        if comp && !thorough && !["jpeg", "png", "mp4"].contains(n) { continue; }
+        cases.push(AnyCase::C03(c03::Case { compress: comp, ver, mode: m.to_string(), ..c03::Case::base(n) })); n03 += 1;
+    }}}}
+    for n in &names { for d in defs::core_defs() {
+        cases.push(AnyCase::C03(c03::Case { def: d, ..c03::Case::base(n) })); n03 += 1;
+    }}
+    for n in &names { for a in &algs {
+        if !thorough && !fam.contains(n) { continue; }
+        cases.push(AnyCase::C03(c03::Case { alg: a.to_string(), trust: true, ..c03::Case::base(n) })); n03 += 1;
+    }}
+    for n in ["jpeg", "png"] { for k in [Kind::Cbor, Kind::Json] { for len in defs::sweep_lengths(false) {
+        if !thorough && !(n == "jpeg" && k == Kind::Cbor) { continue; }
+        cases.push(AnyCase::C03(c03::Case { def: Def::sweep(k, len), ..c03::Case::base(n) })); n03 += 1;
+    }}}
+    // G: faulty signers (a corrupted signature must be refused, or accepted, by both flavours alike)
+    for n in &names { for fault in [1u8, 2] { for ver in [1u8, 2] {
+        cases.push(AnyCase::C03(c03::Case { fault, ver, ..c03::Case::base(n) })); n03 += 1;
+    }}}
+    if thorough {
+        for d in defs::all_defs() { cases.push(AnyCase::C03(c03::Case { def: d, ..c03::Case::base("jpeg") })); n03 += 1; }
+    }
+    run.space("C03 sub-products (quick: A and D on {jpeg,png,mp4,wav,svg,tiff}, F on jpeg/cbor; thorough: all assets) A (asset x alg x hash), B (asset x version x mode, compressed too on jpeg/png/mp4 (thorough: all assets)), C (asset x core definitions), D (asset x alg, trust anchors), F (payload length sweep), G (asset x signer fault {corrupted signature, signer error} x version); thorough: + E (all definitions on jpeg)", n03 as u64, true);
+    let (real, mut sized, _) = c15::cases(false);
+    if !thorough {
+        sized.retain(|c| c.reserve_extra == 0 && !c.rich);
+    }
+    let n15 = real.len() + sized.len();
+    for c in real.into_iter().chain(sized.into_iter()) { cases.push(AnyCase::C15(c)); }
+    run.space("C15 quick enumeration (real cases; sized exclusion lists, quick tier: default reserve and simple definition only) through data_hashed_placeholder + sign_data_hashed_embeddable(_async)", n15 as u64, true);
+    let mut n39 = 0usize;
+    for s in &seeds { for st in c39::STATES { for rel in c39::RELS { for mode in c39::MODES {
+        cases.push(AnyCase::C39(c39::Case { seed: s.name.clone(), state: st.into(), rel: rel.into(), mode: mode.into(), parent: "jpeg".into() })); n39 += 1;
+    }}}}
+    run.space("C39 quick enumeration: seed asset(13) x state(3) x relationship(3) x mode(3)", n39 as u64, true);
+    if std::env::var("VERIF_DEBUG").is_ok() {
+        eprintln!("C40: setup done at {:.1}s", run.elapsed());
+        for e in ["C03", "C15", "C39"] {
+            let t0 = run.elapsed();
+            let sub: Vec<&AnyCase> = cases.iter().filter(|c| c.id().starts_with(e)).collect();
+            par::for_each(&sub, |c| judge(run, c, &seeds, None));
+            eprintln!("C40: {e}: {} cases in {:.1}s", sub.len(), run.elapsed() - t0);
+        }
+        STATS.get_or_init(Default::default).dump("C40");
+        return;
+    }
+    par::for_each(&cases, |c| judge(run, c, &seeds, None));
+    STATS.get_or_init(Default::default).dump("C40");
 }
